@@ -333,7 +333,7 @@ theorem render_tag (t : Ty) (v : Val) (m : Nat) (s : Ts) (rest : Bytes)
     | none => simp [hs] at hv
     | some sz =>
       simp only [hs, decide_eq_true_eq] at hv
-      rw [visitImpl_enum _ _ _ _ _ _ sz hs h.1.2 h.2]
+      rw [visitImpl_enum _ _ _ _ _ _ sz hs h.1.1.2 h.1.2 (by simpa using h.2)]
       simp only [encode, hs, Option.getD_some, readU_le_append sz raw rest hv, h_enum, render]
       cases hemp : (lookupEnumerator (integerToHex u raw) ens).isEmpty <;>
         simp only [if_true, Bool.false_eq_true, if_false] <;>
